@@ -13,8 +13,8 @@
 // (extractor, variant in {valid fixture, empty, first half, one bit flipped in the middle}) plus
 // everything at once per variant; the valid trees also carry the plugin's whole testdata
 // directory. Each tree is scanned with scalibr.Scanner.Scan through a real-directory root
-// (DirectFS declared) and through a virtual root (ScanRoot.Path "", DirectFS not declared, plugins
-// that need DirectFS left out), with every offline plugin the declared capability tuple admits
+// and through a virtual root (ScanRoot.Path ""), DirectFS declared in both cases so that the
+// plugins that want host paths run on both, with every offline plugin the declared capability tuple admits
 // (tuples: Linux, Mac, Windows; RunningSystem declared). Oracle: the snapshot of R is identical
 // before and after Scan (tree, cwd unchanged; tmp back to its seeded state).
 //
@@ -22,6 +22,8 @@
 // '..', '.', the empty segment, 'a', 'out2', 300 x 'a', relative and absolute; regular/dir/symlink/hardlink).
 // Blocks, simplest first: all single entries of the full alphabet x 4 entry points x every
 // configuration; all ordered pairs over the pair alphabet (1 layer and split over 2 layers);
+// chains (two links that only escape together + a write-through into every existing sandbox sibling
+// + optionally a link that makes that entry required; all orders, every 1-2 layer split);
 // thorough only: triples = ordered pair + a write-through of one of its links, inserted at every
 // position, every 1-2 layer split. Entry points: image.FromV1Image + CleanUp,
 // image.FromTarball + CleanUp (singles and thorough pairs only - it is FromV1Image behind
@@ -138,6 +140,60 @@ func forEachImageCase(thorough bool, fn func(idx int, c imgCase) bool) []blockIn
 	}
 	end()
 
+	// chains: two symlinks that each pass the lexical target check but together lead out of the
+	// target (a/b -> .. , c -> a/b/..   and the trampoline  t -> . , up -> t/t/..), a third entry
+	// written through them into a directory that already exists outside the target (each sandbox
+	// sibling), optionally a fourth entry (a link to the third, which makes it "required" for the
+	// links-only requirer). All orders, every 1-2 layer split, all four entry points.
+	begin("chains: two chained links that escape together + a write-through into each existing sibling (+ a link requiring it), all orders, 1-2 layers")
+	type chain2 struct{ n1, t1, n2, t2 string }
+	for _, ch := range []chain2{{"a/b", "..", "c", "a/b/.."}, {"t", ".", "up", "t/t/.."}} {
+		for _, lk := range []string{"s", "h"} {
+			l1 := entry{Name: ch.n1, Kind: lk, Target: ch.t1}
+			l2 := entry{Name: ch.n2, Kind: lk, Target: ch.t2}
+			var ws []entry
+			for _, sib := range []string{"out2", "out-evil", "cwd", "tmp"} {
+				n := ch.n2 + "/" + sib + "/x"
+				ws = append(ws, entry{Name: n, Kind: "f"}, entry{Name: n, Kind: "s", Target: "keep"}, entry{Name: n, Kind: "h", Target: "keep"}, entry{Name: n, Kind: "d"})
+			}
+			ws = append(ws, entry{Name: ch.n2 + "/cwd/scalibr-tmp/x", Kind: "f"}, entry{Name: ch.n2 + "/x", Kind: "f"}, entry{Name: ch.n2 + "/new/x", Kind: "f"})
+			for _, w := range ws {
+				req := entry{Name: "l", Kind: "s", Target: w.Name}
+				for _, base := range [][]entry{{l1, l2, w}, {l1, l2, req, w}} {
+					rawCfgs, sqCfgs, lsCfgs := []int{0, 1, 4, 6}, []int{0, 4}, []int{0}
+					if thorough {
+						rawCfgs, sqCfgs, lsCfgs = []int{0, 1, 2, 3, 4, 5, 6, 7}, squashedCfgIdx, []int{0, 1, 2}
+					}
+					for _, perm := range scankitPerms(len(base)) {
+						seq := make([]entry, len(base))
+						for i, j := range perm {
+							seq[i] = base[j]
+						}
+						for _, c := range rawCfgs {
+							emit(imgCase{EP: "raw", Cfg: c, Layers: [][]entry{seq}})
+						}
+						for cut := 0; cut < len(seq); cut++ {
+							layers := [][]entry{seq}
+							if cut > 0 {
+								layers = [][]entry{seq[:cut], seq[cut:]}
+							}
+							for _, c := range sqCfgs {
+								emit(imgCase{EP: "squashed", Cfg: c, Layers: layers})
+							}
+							if len(base) == 3 || thorough {
+								for _, c := range lsCfgs {
+									emit(imgCase{EP: "v1", Cfg: c, Layers: layers})
+									emit(imgCase{EP: "tarball", Cfg: c, Layers: layers})
+								}
+							}
+						}
+					}
+				}
+			}
+		}
+	}
+	end()
+
 	pairEPs := tripleEPs
 	if thorough {
 		pairEPs = singleEPs()
@@ -190,6 +246,27 @@ func forEachImageCase(thorough bool, fn func(idx int, c imgCase) bool) []blockIn
 		end()
 	}
 	return blocks
+}
+
+// scankitPerms returns all permutations of 0..n-1 in lexicographic order.
+func scankitPerms(n int) [][]int {
+	var out [][]int
+	var rec func(cur []int, used []bool)
+	rec = func(cur []int, used []bool) {
+		if len(cur) == n {
+			out = append(out, append([]int(nil), cur...))
+			return
+		}
+		for i := 0; i < n; i++ {
+			if !used[i] {
+				used[i] = true
+				rec(append(cur, i), used)
+				used[i] = false
+			}
+		}
+	}
+	rec(nil, make([]bool, n))
+	return out
 }
 
 // ---------------------------------------------------------------- worker protocol
